@@ -35,7 +35,7 @@ Fixpoint C01_probes (acts : list action) (t : list obs) (prev : option (list eve
                 end in
       ok && C01_probes acts' t' (Some lg)
     | OCall _ _ _ => C01_probes acts' t' prev   (* rejected resolution: process() did not run *)
-    | OResolve _ => C01_probes acts' t' prev    (* no such request: nothing was called *)
+    | OResolve _ | OLive _ => C01_probes acts' t' prev    (* no such request / a read-only hook: nothing was called *)
     | _ => C01_probes acts' t' None      (* a drop / abort in between: the next call legitimately finds work *)
     end
   | _, _ => true
@@ -179,6 +179,7 @@ Definition robs_obs_eqb (r : robs) (o : obs) : bool :=
   | RODone b, ODone b' _ => Bool.eqb b b'
   | ROResolve c, OResolve c' => Nat.eqb c c'
   | RONone, ONone => true
+  | RONone, OLive _ => true      (* the reference semantics has no executor *)
   | _, _ => false
   end.
 Fixpoint list_eqb2 {A B} (eqb : A -> B -> bool) (a : list A) (b : list B) : bool :=
